@@ -711,6 +711,54 @@ func main() {
 	sort.Strings(pkgWrites)
 	fact("fork flag reads %v; package-level writes %v", flagReads, pkgWrites)
 
+	// ---- which objects AccountDB.Commit / Finalise delete or write: the guards, verbatim
+	var commitCases []string
+	isDirtyDef, finaliseGuard, finaliseRange := "not-found", "not-found", "not-found"
+	ast.Inspect(acommit.Body, func(n ast.Node) bool {
+		switch x := n.(type) {
+		case *ast.AssignStmt:
+			if len(x.Lhs) == 2 && src(x.Lhs[1]) == "isDirty" {
+				isDirtyDef = src(x)
+			}
+		case *ast.SwitchStmt:
+			if x.Tag == nil {
+				for _, c := range x.Body.List {
+					cc := c.(*ast.CaseClause)
+					var conds []string
+					for _, e := range cc.List {
+						conds = append(conds, src(e))
+					}
+					act := "other"
+					switch {
+					case hasCall(cc, "adb.deleteAccountObject"):
+						act = "delete"
+					case hasCall(cc, "adb.updateAccountObject"):
+						act = "update"
+					}
+					if len(conds) == 0 {
+						conds = []string{"default"}
+					}
+					commitCases = append(commitCases, strings.Join(conds, " , ")+" => "+act)
+				}
+			}
+		}
+		return true
+	})
+	if fin := findMethod(af, "AccountDB", "Finalise"); fin != nil {
+		ast.Inspect(fin.Body, func(n ast.Node) bool {
+			switch x := n.(type) {
+			case *ast.RangeStmt:
+				finaliseRange = src(x.X)
+			case *ast.IfStmt:
+				if hasCall(x.Body, "adb.deleteAccountObject") {
+					finaliseGuard = src(x.Cond)
+				}
+			}
+			return true
+		})
+	}
+	fact("Commit cases %v; isDirty %q; Finalise guard %q over %q", commitCases, isDirtyDef, finaliseGuard, finaliseRange)
+
 	// ---- hasher.store: insert before onleaf
 	hf := parse(filepath.Join(repo, "src/storage/trie/hasher.go"))
 	store := findMethod(hf, "hasher", "store")
@@ -773,6 +821,9 @@ namespace Rangers.Generated.TrieDbFacts
 	fmt.Fprintf(&o, "/-- `blockChain.updateLastBlock`: the head record write and its error check. -/\ndef updateLastBlockSkeleton : List String := %s\n\n", leanStrList(ul))
 	fmt.Fprintf(&o, "/-- every `Put`/`Delete` of the head record key `latestBlockKey` in src/core (file:function:op). -/\ndef headRecordWriters : List String := %s\n\n", leanStrList(headWriters))
 	fmt.Fprintf(&o, "/-- `blockChainFork.saveState` (src/core/fork_block.go): the same commit pair. -/\ndef forkSaveStateSkeleton : List String := %s\n\n", leanStrList(fs))
+	fmt.Fprintf(&o, "/-- the cases of the per-object `switch` in `AccountDB.Commit`, verbatim, with what each does. -/\ndef commitObjectCases : List String :=\n  %s\n\n", leanStrList(commitCases))
+	fmt.Fprintf(&o, "/-- how `isDirty` is computed in `AccountDB.Commit`. -/\ndef commitIsDirtyDef : String := %q\n\n", isDirtyDef)
+	fmt.Fprintf(&o, "/-- the delete guard of `AccountDB.Finalise` and the set it ranges over. -/\ndef finaliseDeleteGuard : String := %q\ndef finaliseRangesOver : String := %q\n\n", finaliseGuard, finaliseRange)
 	fmt.Fprintf(&o, "/-- every read of a fork / network flag in src/storage/trie and src/storage/account (non-test). -/\ndef forkFlagReads : List String := %s\n\n", leanStrList(flagReads))
 	fmt.Fprintf(&o, "/-- every assignment to a package-level variable inside a function of those two packages. -/\ndef packageLevelWrites : List String := %s\n\n", leanStrList(pkgWrites))
 	fmt.Fprintf(&o, "/-- every assignment of something other than `true` to a `dirty*` field in src/storage/account (non-test). -/\ndef dirtyFlagClearSites : List String :=\n  %s\n\n", leanStrList(dirtyClears))
